@@ -104,3 +104,20 @@ static void c06_run(void) {
 }
 const prop_def prop_C06 = { "C06", NULL, c06_run, qprog_counter_names,
 	"non-trivial: a suspend/resume or activation happened, >=2 items completed, and a pre-emption/stall was taken inside a queue's atomics; distinct = distinct schedule signatures among those" };
+
+/* ---- C10: dispatch_apply ---- */
+static void c10_run(void) {
+	qgen g; qgen_defaults(&g);
+	g.oracles = O_ONCE | O_HIER | O_BARRIER;
+	g.opmask = (1u << OP_APPLY) | (1u << OP_APPLY) | (1u << OP_ASYNC) | (1u << OP_BARRIER_ASYNC) | (1u << OP_SYNC);
+	g.apply_weight = 60;
+	g.qkindmask = (1u << QK_SERIAL) | (1u << QK_CONC) | (1u << QK_GLOBAL);
+	g.min_queues = 1; g.max_queues = 4; g.max_qdepth = 3; g.width_pct = 25;
+	g.min_clients = 1; g.max_clients = 3; g.min_ops = 2; g.max_ops = 6;
+	g.nest_pct = 35; g.nest_depth = 3;
+	g.apply_max = 64; g.apply_big = 1;
+	if ((RC.cfg & CFG_THOROUGH) && g_chance(1, 10)) g.apply_max = 1000;
+	qprog_run(&g);
+}
+const prop_def prop_C10 = { "C10", NULL, c10_run, qprog_counter_names,
+	"non-trivial: at least one dispatch_apply with n >= 2 completed and a pre-emption/stall was taken; distinct = distinct schedule signatures among those (apply_iterations counts the invocations judged)" };
